@@ -320,6 +320,21 @@ theorem expiry_sweep_removes (s : State) (now : Nat) :
   intro x hx
   exact removeLoop_all _ (s.subs.length + 1) s.subs s.count (by omega) x hx
 
+/-- the expiry sweep also reaches the subscription that is being reported on: it is marked and -/
+theorem sweep_cancels_in_flight (s : State) (p : Sub → Bool) (r : Sub) (hr : s.reporting = some r)
+    (hp : p r = true) : (s.remove p).1.cancelled = true ∧ (s.remove p).1.reporting = some r := by
+  unfold State.remove
+  simp only [hr]
+  cases hc : s.cancelled <;> simp [hp]
+
+/-- … dropped when its report context ends, whatever the ending (keep, retry or drop) -/
+theorem cancelled_report_ends (s : State) (sub r : Sub) (keep : Bool) (hr : s.reporting = some r)
+    (hid : r.id = sub.id) (hc : s.cancelled = true) :
+    (s.reportComplete sub keep).subs = s.subs ∧ (s.reportComplete sub keep).count = s.count - 1 ∧
+    (s.reportComplete sub keep).reporting = none ∧ (s.reportComplete sub keep).cancelled = false := by
+  unfold State.reportComplete
+  simp [hr, hid, hc]
+
 /-- the retry back-off never exceeds the maximum interval (or the base delay) -/
 theorem backoff_capped (fail maxInt : Nat) :
     retryBackoffSecs fail maxInt ≤ max maxInt Consts.retryBaseSecs := by
